@@ -1,6 +1,8 @@
 package tables
 
 import (
+	"sort"
+
 	"github.com/tsawler/tabula/model"
 )
 
@@ -85,6 +87,7 @@ func (r *DetectorRegistry) List() []string {
 	for name := range r.detectors {
 		names = append(names, name)
 	}
+	sort.Strings(names)
 	return names
 }
 
